@@ -41,13 +41,24 @@ fn step<M: BinaryMatrix>(m: &mut M, op: &[u64]) -> Vec<u64> {
         }
         9 => {
             let mut v: Vec<u64> = m.get_ones_in_column(a(1), a(2), a(3)).iter().map(|&r| r as u64).collect();
+            // the buffer-reusing variant must give the same answer whatever the buffer held before
+            let mut buf: Vec<u32> = vec![7, 7, 7];
+            m.get_ones_in_column_into(a(1), a(2), a(3), &mut buf);
+            let mut w: Vec<u64> = buf.iter().map(|&r| r as u64).collect();
             v.sort_unstable();
+            w.sort_unstable();
+            assert!(v == w, "get_ones_in_column_into differs from get_ones_in_column");
             v
         }
         10 => vh::kernels::to_octet_vec(&m.get_sub_row_as_octets(a(1), a(2))).iter().map(|&b| b as u64).collect(),
         11 => {
             let mut v: Vec<u64> = m.query_non_zero_columns(a(1), a(2)).iter().map(|&c| c as u64).collect();
+            let mut buf: Vec<usize> = vec![9, 9];
+            m.query_non_zero_columns_into(a(1), a(2), &mut buf);
+            let mut w: Vec<u64> = buf.iter().map(|&c| c as u64).collect();
             v.sort_unstable();
+            w.sort_unstable();
+            assert!(v == w, "query_non_zero_columns_into differs from query_non_zero_columns");
             v
         }
         12 => {
